@@ -38,6 +38,10 @@ Section Spec.
                 exists w2, c_resume f a' k' s2 = (fst (g a k (cs s)), Build_st (snd (g a k (cs s))) w2))
     else same_as g (c_call f).
 
+  (* producing the text of a value (repr / str) always succeeds and does nothing else: in particular the value's
+     __repr__ is not itself a decorated callable (that would print), does not raise, does not touch the world *)
+  Definition repr_harmless (cx : ctx Sigma) : Prop := forall v s, exists r, cx_repr cx v s = (ROk r, s).
+
   (* how the callable is used: whoever holds something that reports itself as a coroutine function
      awaits what it returns (the twin of an `async def` is awaited) *)
   Definition awaited_if_coro (f : cdesc Sigma) : bool := implb (c_iscoro f) (c_mode f).
@@ -109,6 +113,7 @@ Arguments same_as_at {Sigma} _ _ _ _.
 Arguments same_as {Sigma} _ _.
 Arguments same_as_on {Sigma} _ _ _.
 Arguments behaves_as {Sigma} _ _.
+Arguments repr_harmless {Sigma} _.
 Arguments awaited_if_coro {Sigma} _.
 Arguments plain_function {Sigma} _.
 Arguments sync_function {Sigma} _.
